@@ -6,11 +6,11 @@ ASSUMPTIONS = [
     'exact real arithmetic',
     'weights (h_fmg_node): all grid spacings symbolic (h, k > 0, antipodal periodicity); per target fine node the coarse vector is a tensor polynomial in LOCAL signed distances (cubic in r at radially interior odd nodes, cubic in theta at odd angular nodes, wrap included) on exactly the admissible neighbours and UNCONSTRAINED symbols on every other coarse node; the result must equal the polynomial at distance 0 for all of them',
     'next-to-boundary radial rule: linear polynomial under the midpoint assumption h_{i-1} = h_i (same caveat as finding F1), two non-negative weights',
-    'start-up (h_start): GMGPolar state built directly, real setup(), FMG on, max_iterations = 0, right-hand sides of all levels and ALL work vectors symbolic; coefficients via the small-rational libm mode',
+    'start-up (h_start): with FMG iterations >= 1 the oracle is the nested iteration written out in the harness on a second solver object (coarsest direct solve; per level FMG interpolation + the configured number of cycles of the configured type, calling the private cycle functions, which are C10\'s subject); GMGPolar state built directly, real setup(), FMG on, max_iterations = 0, right-hand sides of all levels and ALL work vectors symbolic; coefficients via the small-rational libm mode',
     '-DNDEBUG build',
 ]
 OUTSIDE = ['grid pairs other than listed', 'start-up with more than 3 levels']
-BOUNDS = {'quick': 'weights: every non-coarse fine node of (9,8)<-(5,4) and the node classes of (11,8)<-(6,4), two split variants; start-up: 2 levels, FMG iterations 0 and 1, V cycle, plain and extrapolated',
+BOUNDS = {'quick': 'weights: every non-coarse fine node of (9,8)<-(5,4) and the node classes of (11,8)<-(6,4), two split variants; start-up: 2 levels, FMG iterations 0 and 1, V cycle, plain and extrapolated; 3 levels (17x16/9x8/5x4) with W, F (1 iteration) and V (2 iterations, extrapolated) against the nested iteration written out on a second solver object',
           'thorough': 'weights: + (9,16) (13,8) (11,12); start-up: 2 and 3 levels, iterations 0,1,2, V/W/F, extrapolation 0/1, both strategies and modes'}
 
 
@@ -30,12 +30,18 @@ def jobs(tier, seed):
 
     def start(lev3, its, cyc, ex, strat, dirbc, geo, prof, diff=False):
         J.append(dict(entry='h_start', args=[lev3, its, cyc, ex, strat, dirbc, geo, prof], label=f'start levels={3 if lev3 else 2} fmg_iterations={its} cycle={"VWF"[cyc]} ex={ex} strategy={strat} dirbc={dirbc}',
-                      cls='start', reach=['setup-done', 'solve-done'], eager=False, libm_small=True, diff=diff, batch=12, witness=False))
+                      cls='start', reach=['setup-done', 'solve-done'], eager=False, libm_small=True, diff=diff, batch=12, witness='lazy', solver_budget_quick=120))
     if q:
         start(0, 0, 0, 0, 1, 0, 1, 3, diff=True)
         start(0, 1, 0, 0, 1, 1, 1, 3)
         start(0, 1, 0, 1, 0, 0, 0, 0)
         start(0, 0, 0, 1, 0, 1, 0, 0)
+        # three levels: the cycle type matters (V = W = F when only the coarsest level lies below); every FMG cycle type once
+        start(1, 1, 1, 0, 0, 0, 0, 0)
+        start(1, 1, 2, 0, 1, 1, 0, 0)
+        start(1, 2, 0, 1, 0, 0, 0, 0)
+        start(0, 1, 1, 1, 1, 0, 0, 0)
+        start(0, 1, 2, 2, 0, 1, 0, 0)
     else:
         for lev3 in (0, 1):
             for its in (0, 1, 2):
